@@ -44,6 +44,12 @@ def classify_m(mline, trace_lines):
     opname = op[2] if len(op) > 2 else "?"
     props = set()
     what = ""
+    if model.startswith("ctor ") or model.startswith("batch "):
+        return {"C18"}, "ctor:" + model.split(" ")[0]
+    if model.startswith("prog "):
+        return {"C14"}, "program:" + model
+    if model.startswith("fault "):
+        return {"C17"}, "fault:" + model
     if "UB " in model or "panicked" in real or "dump-panicked" in real:
         props |= {"C05"}
         what = "ub-or-panic"
@@ -145,10 +151,25 @@ def classify_x(xline, trace_lines):
         props |= {"C10"}
     elif oracle == "eq":
         props |= {"C16"}
+    elif oracle == "stages":
+        if "serialised" in rest:
+            props |= {"C12"}
+        elif "conflicting" in rest:
+            props |= {"C08", "C07"}
+        else:
+            props |= {"C07", "C12"}
+    elif oracle == "ctor":
+        props |= {"C18"}
+    elif oracle == "program":
+        props |= {"C14"}
+    elif oracle == "fault":
+        props |= {"C17"}
     elif oracle == "sched":
         props |= {"C07"}
         if "world-differs" in rest or "phases-differ" in rest or "system-state-differs" in rest:
             props |= {"C08"}
+        if "serialised" in rest:
+            props = {"C12"}
     elif oracle == "query":
         props |= {"C03"}
     elif oracle == "par":
@@ -190,6 +211,32 @@ def all_runs(tier, seed):
     return core_runs(tier, seed, profile="multi-res-serde-query")
 
 
+def par_runs(tier, seed):
+    return core_runs(tier, seed, profile="multi-par")
+
+
+def c14_run(trace_path):
+    from . import c14
+    n, details = c14.run_family(trace_path)
+    return {"programs": n, "compiled": sum(1 for d in details.values() if d["compiled"]),
+            "rejected": sum(1 for d in details.values() if not d["compiled"]),
+            "error_codes": sorted({c for d in details.values() for c in d["codes"]})}
+
+
+def c14_runs(tier, seed):
+    return [c14_run]
+
+
+def fault_runs(tier, seed):
+    if tier == "thorough":
+        return [["fault", "--seed", str(seed), "--cases", "400", "--maxk", "12"]]
+    return [["fault", "--seed", str(seed), "--cases", "40", "--maxk", "8"]]
+
+
+def ctor_runs(tier, seed):
+    return [["ctor"]]
+
+
 def sched_runs(tier, seed):
     if tier == "thorough":
         return [["core", "--family", "reg4", "--seed", str(seed), "--cases", "1500", "--ops", "50", "--profile", "single-sched"]]
@@ -215,7 +262,7 @@ TRUSTED = [
 ]
 
 HOOK_COMMITS = ["903a2e5", "7f71e80"]
-FIX_COMMITS = ["7b7a5a0", "885588c", "58c8a9f"]
+FIX_COMMITS = ["7b7a5a0", "885588c", "58c8a9f", "3d46a06", "0180007"]
 NOT_APPLICABLE = {}
 
 CORE_TRUST = ("Lean kernel + {propext, Classical.choice, Quot.sound}; hand-written L1 model tied to the code by the "
@@ -259,6 +306,18 @@ PROPS = {
     "C12": dict(runs=sched_runs,
                 level="verifier table precise, stage boundaries justified by a conflict, independent tasks appended (Props/C12.lean); static grouping of real schedule types read from type_name::<S::Stages>() and compared with the model's greedy stager; every schedule run to completion on pools of 1, 2 and 8 threads",
                 trust=SCHED_TRUST + "; termination of the real run_schedule is exercised, not proved", technique="Lean 4 proof (precision + maximality of the greedy stager over generated tables) + static staging correspondence via type_name"),
+    "C09": dict(runs=par_runs,
+                level="for every split tree: leaves partition the sequence, zipped leaves equal the sequential zip, the None filler splits consistently (Props/C09.lean); par_query on a generated typed family under pools of 1, 2, 3, 8, 16 threads and three consumption modes (collect, fold/reduce, for_each) compared row-for-row (as multisets) with the model and the L0 spec, writes through mutable views compared, addresses of all mutable items of one parallel iteration pairwise distinct; ParSystem outcomes are covered by the schedule runs (C07)",
+                trust=CORE_TRUST + "; PARTIAL: rayon bridge / MultiZip / splitter and hashbrown's parallel bucket iterator assumed to hand each item to exactly one leaf", technique="Lean 4 proof over arbitrary split trees + differential correspondence check under several pool sizes"),
+    "C14": dict(runs=c14_runs, static=True,
+                level="accepts => Sound proved by kernel decision over the whole program family outside the recorded finding (Props/C14.lean), with `accepts` computed from tables re-extracted from the source on every run (every unsafe impl Send/Sync with its bounds, the entry-query signatures, the SubViewable impl table); every program of the family (each pair of view kinds in each position, repeated entry queries, resource views, components outside the registry, each thread-crossing API with Send+Sync / !Sync / !Send payloads; conflicting programs next to conflict-free twins) is instantiated as Rust source and compiled by rustc against the current tree: verdict compared with `accepts`, and every accepted program checked against `Sound`",
+                trust="Lean kernel + {propext, Classical.choice, Quot.sound}; translator; PARTIAL: rustc's trait solver and borrow checker are the implementation here — the model reproduces their verdict on this family only (157 programs)", technique="Lean 4 proof by kernel decision over a program family, tables generated from the source + rustc verdict correspondence"),
+    "C17": dict(runs=fault_runs, static=True,
+                level="mechanism of the clear finding and safety of the length-first order proved on the fault model (Props/C17.lean); fault enumeration on the real crate: for small worlds with multi-column archetypes, every operation that calls user code x callback (Drop, Clone, PartialEq, Debug, Serialize, Deserialize, query body) x position k, each fault point in its own child process: the panic is caught, then a ledger of individually identified values (no value dropped twice), self-checking payloads, the allocator audit and the final drop of every world are checked; (operation, callback) pairs the model table calls safe must show no failure, the others are the recorded findings",
+                trust="Lean kernel + {propext, Classical.choice, Quot.sound}; the table of safe (operation, callback) pairs is hand-written from the code and compared with the enumeration; PARTIAL: unwinding, Vec's internal panic guards and rayon's panic propagation are taken from their documentation, not modelled", technique="Lean 4 proof on a fault model + fault enumeration in child processes with a drop ledger"),
+    "C18": dict(runs=ctor_runs,
+                level="assert_no_duplicates accepts exactly duplicate-free registries of any length, every path to a World literal passes it, Batch::new accepts exactly equal-length columns (Props/C18.lean, over shapes and a constructor graph re-extracted from the source on every run); exhaustive run of new / with_resources / default / deserialize (both encodings) on 120 registries of length 2-9 with every pair of equal positions plus duplicate-free controls, and of Batch::new on all 340 combinations of column lengths 0-3 for 1-4 columns",
+                trust="Lean kernel + {propext, Classical.choice, Quot.sound}; translator (regex extraction of the check's shape and of the constructor call graph; its report is in the evidence); World's fields are private to src/world so no other literal exists", technique="Lean 4 proof over source-extracted shapes + exhaustive constructor run"),
     "C06": dict(runs=serde_runs,
                 level="token-level model of Serialize/Deserialize (both encodings) with round-trip theorems in Props/C06.lean; the real token stream of every round trip is deserialized by the real code and by the model, dumps compared, the copy then driven in lock-step with further ops; rejection of a reachable world's serialization is an oracle failure",
                 trust=CORE_TRUST + "; serde_assert 0.5 framing rules modelled from its source", technique="Lean 4 proof (round trip on the token model) + differential correspondence check on real token streams"),
@@ -314,6 +373,20 @@ def search_failing_input(pid, seed, tier, tmp, spec):
     return None
 
 
+def replay_body_static(pid, line, cov):
+    """Replay body for a non-op finding (a program, a constructor case): the line itself plus, for a
+    C14 program, its Rust source."""
+    body = ["# " + line]
+    m = re.search(r"\[([a-z0-9_ ]+)\]", line)
+    if pid == "C14" and m:
+        try:
+            from . import c14
+            body += ["// program: " + m.group(1)] + c14.source(m.group(1)).splitlines()
+        except Exception:   # noqa: BLE001
+            pass
+    return body
+
+
 def last_case(lines):
     for l in reversed(lines):
         if l.startswith("case "):
@@ -353,7 +426,7 @@ def check_property(pid, tier, seed, t0):
         notes.append("harness does not build against /repo: " + build_fail["cargo"][-1500:])
     else:
         runs = []
-        for f in corpus_files():
+        for f in (corpus_files() if not spec.get("static") else []):
             runs.append(["replay", f])
         runs += spec["runs"](tier, seed) if spec.get("runs") else []
         for k, args in enumerate(runs):
@@ -362,7 +435,21 @@ def check_property(pid, tier, seed, t0):
             # is resumed after it, a few times
             lines, ms, xs, summ, stats = [], [], [], {}, {}
             first = 0
-            for attempt in range(6):
+            if callable(args):
+                # a run implemented in Python (e.g. the C14 program family): it writes the trace itself
+                try:
+                    info = args(tr)
+                except Exception as ex:   # noqa: BLE001
+                    info = {}
+                    xs.append("X 0 case=? oracle=runner %s" % str(ex)[:300])
+                ms1, xs1, summ = C.drive(tr) if os.path.exists(tr) else ([], [], {})
+                ms += ms1
+                xs += xs1
+                lines = open(tr).read().splitlines() if os.path.exists(tr) else []
+                cov.setdefault("extra", {}).update(info or {})
+                if not samples:
+                    samples = lines[1:9]
+            for attempt in (range(6) if not callable(args) else []):
                 a2 = args + (["--first", str(first)] if args[0] == "core" and first else [])
                 try:
                     rc, stats1, err = C.harness_trace(a2, tr, timeout=3000)
@@ -393,7 +480,7 @@ def check_property(pid, tier, seed, t0):
                 op_hist[kk] = op_hist.get(kk, 0) + v
             for kk, v in stats.get("branches", {}).items():
                 branches[kk] = branches.get(kk, 0) + v
-            if not samples and args[0] != "replay":
+            if not callable(args) and not samples and args[0] != "replay":
                 samples = [l for l in lines if l.startswith("op ")][:12]
             for x in xs:
                 props, what = classify_x(x, lines)
@@ -414,20 +501,47 @@ def check_property(pid, tier, seed, t0):
     # ---- decide --------------------------------------------------------------------------
     xs = [f for f in found if f[0] == "X"]
     ms = [f for f in found if f[0] == "M"]
+    # findings that are recorded (known_findings.json) are announced once each and do not fail the check
+    announced = set()
+    unknown_xs = []
+    for f in xs:
+        k = C.match_known(pid, f[1])
+        if k:
+            if k.get("id") not in announced:
+                announced.add(k.get("id"))
+                print("KNOWN-FINDING: property=%s %s" % (pid, k.get("what", "")))
+        else:
+            unknown_xs.append(f)
+    unknown_ms = []
+    for f in ms:
+        k = C.match_known(pid, f[1])
+        if k:
+            if k.get("id") not in announced:
+                announced.add(k.get("id"))
+                print("KNOWN-FINDING: property=%s %s" % (pid, k.get("what", "")))
+        else:
+            unknown_ms.append(f)
+    cov["known_findings_seen"] = sorted(x for x in announced if x)
+    xs, ms = unknown_xs, unknown_ms
+    is_ops = lambda lines: any(l.startswith("op ") for l in lines)
     if xs:
         # an oracle fails on the implementation: a concrete failing input exists
         kind, line, what, lines = xs[0]
-        case = C.case_of(line)
-        cases = split_lines_cases(lines)
-        body = C.ops_only(cases.get(case, lines))
-        sig = C.signature([], [line])
-        body = C.shrink(body, sig, tmp, budget=60 if tier == "quick" else 200)
-        m2, x2, _ = C.replay_verdict(body, tmp)
-        text = "\n".join(body + x2 + m2)
-        violations += report_violation(pid, seed, "oracle", {"property": pid, "what": what, "oracle-line": (x2 or [line])[0][:400], "reproduce": "./check %s --replay <this file>" % pid}, body, text)
+        if is_ops(lines):
+            case = C.case_of(line)
+            cases = split_lines_cases(lines)
+            body = C.ops_only(cases.get(case, lines))
+            sig = C.signature([], [line])
+            body = C.shrink(body, sig, tmp, budget=60 if tier == "quick" else 200)
+            m2, x2, _ = C.replay_verdict(body, tmp)
+            text = "\n".join(body + x2 + m2)
+            violations += report_violation(pid, seed, "oracle", {"property": pid, "what": what, "oracle-line": (x2 or [line])[0][:400], "reproduce": "./check %s --replay <this file>" % pid}, body, text)
+        else:
+            body = replay_body_static(pid, line, cov)
+            violations += report_violation(pid, seed, "oracle", {"property": pid, "what": what, "oracle-line": line[:400]}, body, line)
     elif ms or proof_broken or "cargo" in build_fail:
         # the correspondence or a proof obligation no longer checks: look for a failing input
-        hit = search_failing_input(pid, seed, tier, tmp, spec) if (spec.get("runs") and "cargo" not in build_fail) else None
+        hit = search_failing_input(pid, seed, tier, tmp, spec) if (spec.get("runs") and "cargo" not in build_fail and not spec.get("static")) else None
         if hit:
             lines, x, what = hit
             case = C.case_of(x)
@@ -438,17 +552,15 @@ def check_property(pid, tier, seed, t0):
         else:
             if ms:
                 kind, line, what, lines = ms[0]
-                case = C.case_of(line)
-                body = C.ops_only(split_lines_cases(lines).get(case, lines))
-                body = C.shrink(body, "M", tmp, budget=60 if tier == "quick" else 200)
-                m2, x2, _ = C.replay_verdict(body, tmp)
-                header = {"property": pid, "no-longer-checks": "correspondence L1 (%s)" % what, "first-disagreement": (m2 or [line])[0][:600]}
-                text = "\n".join(body + m2)
-                known = C.match_known(pid, text)
-                if known:
-                    print("KNOWN-FINDING: property=%s %s" % (pid, known.get("what", "")))
+                if is_ops(lines):
+                    case = C.case_of(line)
+                    body = C.ops_only(split_lines_cases(lines).get(case, lines))
+                    body = C.shrink(body, "M", tmp, budget=60 if tier == "quick" else 200)
+                    m2, x2, _ = C.replay_verdict(body, tmp)
                 else:
-                    violations += report_violation(pid, seed, "corr", header, body, text, no_input=True)
+                    body, m2 = replay_body_static(pid, line, cov), [line]
+                header = {"property": pid, "no-longer-checks": "correspondence (%s)" % what, "first-disagreement": (m2 or [line])[0][:600]}
+                violations += report_violation(pid, seed, "corr", header, body, "\n".join(body + m2), no_input=True)
             else:
                 header = {"property": pid, "no-longer-checks": "; ".join(proof_broken)[:1500]}
                 violations += report_violation(pid, seed, "proof", header, ["# theorem / build obligation that no longer checks:"] + ["# " + e for e in proof_broken], "", no_input=True)
